@@ -2,7 +2,7 @@
 # usage: cmp.py files...   runs harness stages 4, feeds S3 to model, compares with S4
 import subprocess, sys, os, re, tempfile
 H='/verif/harness/target/debug/scc-harness'
-M='/tmp/agent_m3/lean/.lake/build/bin/m3test'
+M=os.environ.get('M3TEST','/verif/lean/.lake/build/bin/m3test')
 def stages(f, upto=4):
     r=subprocess.run([H],input=f"stages {f} {upto}\n",capture_output=True,text=True)
     d={}
